@@ -6,6 +6,8 @@ require (
 	github.com/RoaringBitmap/roaring v1.9.4
 	github.com/akrennmair/updog v0.0.0
 	go.etcd.io/bbolt v1.4.0
+	google.golang.org/grpc v1.70.0
+	google.golang.org/protobuf v1.36.5
 )
 
 require (
@@ -15,8 +17,6 @@ require (
 	golang.org/x/sys v0.30.0 // indirect
 	golang.org/x/text v0.22.0 // indirect
 	google.golang.org/genproto/googleapis/rpc v0.0.0-20250303144028-a0af3efb3deb // indirect
-	google.golang.org/grpc v1.70.0 // indirect
-	google.golang.org/protobuf v1.36.5 // indirect
 )
 
 replace github.com/akrennmair/updog => /repo
